@@ -103,6 +103,43 @@ def sh(cmd, cwd, timeout=1800):
     return p.returncode, p.stdout
 
 
+def structural_candidates():
+    """Second family: statement deletion, condition negation / forcing, numeric literals +-1."""
+    out = []
+    for f in FILES:
+        lines = open(os.path.join("/repo", f)).read().split("\n")
+        for i, line in enumerate(lines):
+            if line.strip().startswith("#[cfg(test)]"):
+                break
+            st = line.strip()
+            if st.startswith("//") or st.startswith("#[") or st.startswith("use ") or not st:
+                continue
+            ind = line[: len(line) - len(line.lstrip())]
+            # delete a simple statement
+            if st.endswith(";") and not st.startswith(("let ", "pub ", "const ", "static ", "type ", "return", "}")) and "=>" not in st:
+                out.append((f, i, ind + "// (deleted)", "%s:%d  delete statement: %s" % (f, i + 1, st[:70])))
+            # conditions
+            m = re.match(r"^(\s*)(\} else )?if (?!let )(.+) \{$", line)
+            if m:
+                pre, els, cond = m.group(1), m.group(2) or "", m.group(3)
+                out.append((f, i, "%s%sif !(%s) {" % (pre, els, cond), "%s:%d  negate condition: %s" % (f, i + 1, cond[:60])))
+                out.append((f, i, "%s%sif true {" % (pre, els), "%s:%d  force condition true: %s" % (f, i + 1, cond[:60])))
+                out.append((f, i, "%s%sif false {" % (pre, els), "%s:%d  force condition false: %s" % (f, i + 1, cond[:60])))
+            # numeric literals
+            for m in re.finditer(r"(?<![\w.'])(\d+)(?![\w.'])", line):
+                v = int(m.group(1))
+                for nv in (v + 1, max(v - 1, 0)):
+                    if nv != v:
+                        new = line[: m.start()] + str(nv) + line[m.end():]
+                        out.append((f, i, new, "%s:%d  literal %d -> %d in: %s" % (f, i + 1, v, nv, st[:50])))
+            # return value of small predicates
+            if st in ("true", "false"):
+                out.append((f, i, ind + ("false" if st == "true" else "true"), "%s:%d  flip %s" % (f, i + 1, st)))
+            for a, b in [(".rev()", ""), ("Some(", "None.or(Some("), (".ok()?", ".ok().unwrap_or_else(|| unreachable!())")]:
+                pass
+    return out
+
+
 def candidates():
     """(file, line number, new line, description) for every single-site mutation."""
     out = []
@@ -145,9 +182,9 @@ def try_candidates(worker, cands, results):
         shutil.rmtree(scratch, ignore_errors=True)
 
 
-def generate(maxn):
+def generate(maxn, structural=False):
     os.makedirs(OUT, exist_ok=True)
-    cands = list(enumerate(candidates()))
+    cands = list(enumerate(structural_candidates() if structural else candidates()))
     if maxn:
         cands = cands[:maxn]
     print("%d candidate mutations" % len(cands))
@@ -159,16 +196,16 @@ def generate(maxn):
     results.sort()
     index = []
     for n, (idx, desc, diff) in enumerate(results):
-        name = "M%03d" % n
+        name = ("S%03d" if structural else "M%03d") % n
         open(os.path.join(OUT, name + ".diff"), "w").write(diff)
         index.append({"name": name, "mutation": desc})
     json.dump({"candidates": len(cands), "surviving_the_test_suite": len(results), "mutants": index},
-              open(os.path.join(OUT, "index.json"), "w"), indent=1)
+              open(os.path.join(OUT, "index_structural.json" if structural else "index.json"), "w"), indent=1)
     print("%d of %d candidates compile and pass the 181 tests + 12 doctests" % (len(results), len(cands)))
 
 
-def score():
-    idx = json.load(open(os.path.join(OUT, "index.json")))
+def score(structural=False):
+    idx = json.load(open(os.path.join(OUT, "index_structural.json" if structural else "index.json")))
     st = {r["name"]: r for r in json.load(open(os.path.join(VERIF, "selftest.json")))}
     killed, alive = [], []
     for m in idx["mutants"]:
@@ -183,7 +220,8 @@ def score():
 
 
 if __name__ == "__main__":
+    structural = "--structural" in sys.argv
     if len(sys.argv) > 1 and sys.argv[1] == "generate":
-        generate(int(sys.argv[sys.argv.index("--max") + 1]) if "--max" in sys.argv else None)
+        generate(int(sys.argv[sys.argv.index("--max") + 1]) if "--max" in sys.argv else None, structural)
     else:
-        score()
+        score(structural)
